@@ -1,34 +1,31 @@
 #!/bin/bash
-# Runs the repository's pinned baseline with the verification guard OFF and prints a pass/fail summary.
-# Usage: tools/baseline.sh [repo_dir]   (default /repo)
+# Runs the repository's pinned baseline (the `cargo test` fallback recorded in /root/.vp/BASELINE.json; nextest cannot
+# list pavex_cli's custom-harness ui_tests) with the verification guard OFF and prints a pass/fail summary.
+# Usage: tools/baseline.sh [repo_dir]   (default /repo). Exit 0 iff no test outside BASELINE.always_fail failed
+# and at least n_stable tests passed.
 set -o pipefail
 R=${1:-/repo}
 cd "$R" || exit 2
 export RUSTUP_TOOLCHAIN=stable-x86_64-unknown-linux-gnu CARGO_NET_OFFLINE=true
 unset RUSTFLAGS
-TD=$(cargo metadata --no-deps --format-version 1 --offline 2>/dev/null | python3 -c 'import sys,json; print(json.load(sys.stdin)["target_directory"])' 2>/dev/null); [ -n "$TD" ] || TD=target
-rm -f "$TD/nextest/pb/junit.xml"
-cargo nextest run --workspace --no-fail-fast --tool-config-file pb:/w/lib/nextest.toml --profile pb --test-threads 8 --offline > "$TD/pxv-baseline.log" 2>&1
-rc=$?
-tail -5 "$TD/pxv-baseline.log"
-python3 - "$TD/nextest/pb/junit.xml" <<'PY'
-import sys, json, xml.etree.ElementTree as ET
+LOG=$(mktemp /var/tmp/pxv-baseline.XXXXXX.log)
+cargo test --workspace --no-fail-fast --offline -- --test-threads 8 > "$LOG" 2>&1
+echo "cargo test rc=$?  log=$LOG"
+python3 - "$LOG" <<'PY'
+import sys, json, re
 base = json.load(open('/root/.vp/BASELINE.json'))
-stable = set(n for n in base['stable_pass'] if not n.startswith('doctest:'))
-t = ET.parse(sys.argv[1]).getroot()
-passed, failed = set(), set()
-for ts in t.iter('testsuite'):
-    for tc in ts.iter('testcase'):
-        name = tc.get('name')
-        cls = tc.get('classname') or ''
-        ok = tc.find('failure') is None and tc.find('error') is None
-        # baseline names look like `<binary-or-module>::<test>`; compare on suffix match
-        (passed if ok else failed).add(name)
-def hit(s, pool):
-    return any(s == p or s.endswith('::' + p) or p.endswith('::' + s) or s.split('::', 1)[-1] == p for p in pool)
-missing = [s for s in stable if not hit(s, passed)]
-print("junit: passed=%d failed=%d ; baseline non-doctest stable=%d ; stable tests not passing now=%d" % (len(passed), len(failed), len(stable), len(missing)))
-for m in missing[:40]:
-    print("  NOT PASSING:", m)
-sys.exit(1 if missing else 0)
+always_fail = set(base['always_fail'])
+ok, failed = [], []
+for l in open(sys.argv[1], errors='replace'):
+    m = re.match(r'^test (.+?) \.\.\. (ok|FAILED|failed)\s*$', l.strip())
+    if m:
+        (ok if m.group(2) == 'ok' else failed).append(m.group(1))
+def known_bad(t):
+    return any(t == a or a.endswith('::' + t) or t.endswith(a.split('::', 1)[-1]) for a in always_fail)
+new_fail = [t for t in failed if not known_bad(t)]
+print("passed=%d failed=%d (baseline: n_stable=%d, always_fail=%d) unexpected failures=%d" % (
+    len(ok), len(failed), base['n_stable'], len(always_fail), len(new_fail)))
+for t in new_fail[:40]:
+    print("  UNEXPECTED FAILURE:", t)
+sys.exit(0 if not new_fail and len(ok) >= base['n_stable'] else 1)
 PY
